@@ -5,7 +5,7 @@ P=/tmp/ev/probe; patch="$1"; shift
 mkdir -p $P
 if [ ! -d $P/repo ]; then git -C /repo worktree add --detach $P/repo HEAD -q; cp /repo/Cargo.lock $P/repo/; fi
 git -C $P/repo checkout -q -- . ; git -C $P/repo checkout -q --detach $(git -C /repo rev-parse HEAD)
-rsync -a --delete --exclude target --exclude target-rustls --exclude out --exclude .git --exclude seeded --exclude shadow /verif/ $P/verif/
+rsync -a --delete --exclude target --exclude 'target-*' --exclude out --exclude .git --exclude seeded --exclude shadow /verif/ $P/verif/
 mkdir -p $P/verif/out
 [ "$patch" != "-" ] && { git -C $P/repo apply "$patch" || exit 2; }
 export VERIF_REPO=$P/repo
